@@ -8,7 +8,7 @@ cd /repo || exit 9
 if [ -n "$(git status --porcelain)" ]; then echo "repo dirty"; exit 9; fi
 git apply $REV "$P" || { echo "patch does not apply"; exit 9; }
 cd /verif
-./check "$ID" "$TIER" > /tmp/trymut.$$.log 2>&1
+LUNARMON_OUT=/tmp/trymut-out ./check "$ID" "$TIER" > /tmp/trymut.$$.log 2>&1
 rc=$?
 git -C /repo checkout -- .
 git -C /repo clean -fdq
